@@ -15,6 +15,7 @@ EXPLANATION = (
     "on. That accessors reproduce the parts is not decided.")
 EXPLANATION += " Also decided: no raw fixed-width arithmetic on a length, count or offset in these constructors can wrap."
 EXPLANATION += " Also decided: every byte of the fixed headers (Event 0..144, Filter 0..32, Tags 0..4) is written on every success path of every constructor and parser."
+EXPLANATION += ' Also decided: every public function of the crate returning an owned packed value is held to the same rules as the listed constructors; a length test that compares the same quantities as an open slice bound with a smaller constant is a violation.'
 ASSUMPTIONS = ["A1: usize size arithmetic does not overflow"]
 
 ENTRY = [
@@ -28,6 +29,17 @@ ENTRY = [
 def run(ctx):
     s = S(ctx)
     rts = roots(ctx, ENTRY)
+    # any other public function of the crate that hands out an owned packed value is a constructor too (a new convenience
+    # constructor added beside the listed ones is held to the same rules)
+    extra = []
+    for p, f in sorted(ctx.F.fns.items()):
+        if p.startswith("pocket_types::") and f.kind != "Closure" and f.raw.get("vis") == "pub" and p not in rts:
+            rt = f.locals[0]["ty"]["s"]
+            if any(k in rt for k in ("OwnedTags", "OwnedEvent", "OwnedFilter")):
+                extra.append(p)
+                ctx.functions.add(p)
+    ctx.instances["C19.other public constructors"] = len(extra)
+    rts = rts + extra
     sc = scope_of(ctx, rts, within=lambda p: p.startswith("pocket_types::"))
     ctx.floor("C19.scope-functions", len(sc), 20)
     obs = g_obligations(ctx, sc, ("cast", "index", "slice", "panic", "arith"))
